@@ -67,13 +67,25 @@ def _headers_digest():
 
 
 # ---------------------------------------------------------------------------------- translate + lake
-def translate():
-    """regenerates lean/FFSM2/Gen/Consts.lean from /repo; returns dict group -> failure message"""
-    rc, out = run([sys.executable, os.path.join(VERIF, "tools", "translate.py")])
+def translate(force_fallback=()):
+    """regenerates lean/FFSM2/Gen/Consts.lean from /repo; returns dict group -> failure message.
+    `force_fallback`: groups that keep the definitions recorded when the model was last validated."""
+    cmd = [sys.executable, os.path.join(VERIF, "tools", "translate.py")]
+    if force_fallback:
+        cmd.append("--force-fallback=" + ",".join(sorted(force_fallback)))
+    rc, out = run(cmd)
     st = os.path.join(LEAN, "FFSM2", "Gen", "status.json")
     if rc != 0 or not os.path.exists(st):
         return {"*": "translator crashed: " + out.strip()[-500:]}
     return json.load(open(st)).get("failed", {})
+
+
+def translate_status():
+    st = os.path.join(LEAN, "FFSM2", "Gen", "status.json")
+    try:
+        return json.load(open(st))
+    except Exception:
+        return {"failed": {}, "changed": [], "forced": []}
 
 
 def fingerprints():
